@@ -17,6 +17,7 @@ import (
 	"github.com/nspcc-dev/neo-go/pkg/core/native/noderoles"
 	"github.com/nspcc-dev/neo-go/pkg/core/transaction"
 	"github.com/nspcc-dev/neo-go/pkg/util"
+	"github.com/nspcc-dev/neo-go/pkg/vm/stackitem"
 	"github.com/nspcc-dev/neo-go/pkg/vm/vmstate"
 )
 
@@ -102,7 +103,40 @@ func extrasBody(r *Run) {
 	for i, p := range w.Pubs {
 		cands[i] = p.Bytes()
 	}
-	submit(w, "alphabet.vote", A, alph.Hash, "vote", epoch, cands)
+	if Chance(t, "registeredCandidate", 60) {
+		// with a registered candidate and NEO on the contract's account the vote
+		// has an effect (the contract's NEO account votes), so the checks that
+		// shadow this history have a positive control for it
+		cand := DetKey("extras/candidate")
+		aer := w.AddBlock([]*transaction.Transaction{w.CallTx([]Signer{Single("candidate", cand)}, 1100_0000_0000, w.NEO, "registerCandidate", cand.PublicKey().Bytes())}, 1)[0]
+		r.AddBlock(1, 1)
+		if aer.VMState != vmstate.Halt {
+			harnessf("registerCandidate refused: %s", aer.FaultException)
+		}
+		submit(w, "neo.transfer(validators → alphabet0)", []Signer{w.Validator}, w.NEO, "transfer", w.Validator.Hash, alph.Hash, int64(100), nil)
+		cands = []any{cand.PublicKey().Bytes()}
+		voted := func() string {
+			it, err := w.Read(w.NEO, "getAccountState", alph.Hash)
+			if err != nil {
+				harnessf("getAccountState: %v", err)
+			}
+			b, err := stackitem.Serialize(it)
+			if err != nil {
+				harnessf("getAccountState: %v", err)
+			}
+			return fmt.Sprintf("%x", b)
+		}
+		before := voted()
+		submit(w, "alphabet.vote", A, alph.Hash, "vote", epoch, cands)
+		if after := voted(); after == before {
+			r.Tracef("alphabet.vote left the contract's NEO account as it was: %s", after)
+			r.Count("extras.vote_without_effect")
+		} else {
+			r.Count("extras.vote_with_effect")
+		}
+	} else {
+		submit(w, "alphabet.vote", A, alph.Hash, "vote", epoch, cands)
+	}
 	submit(w, "container.startContainerEstimation", A, w.C["container"].Hash, "startContainerEstimation", int64(1))
 	submit(w, "container.stopContainerEstimation", A, w.C["container"].Hash, "stopContainerEstimation", int64(1))
 	submit(w, "nns.setPrice", []Signer{w.Committee}, w.C["nns"].Hash, "setPrice", int64(5_0000_0000))
